@@ -5,7 +5,9 @@ request   {"op": add|sub|mul|div|floordiv|pow, "e1": [[cat,unit,exp],..], "c1": 
            "e2": .., "c2": .., "v2": ..   (binary operators)   |   "n": int   (pow)}
 answer    {"ok": {"e": [[cat,unit,exp],..], "cap": caption, "derived": bool}, "v": "n/d", "M": "n/d", "br": [..]
            [, "quot": "n/d"  (floordiv: the exact matched quotient)]}   |   {"err": kind, "br": [..]}
-           ("br": the branches of the modelled functions this request went through)
+           ("br": the branches of the modelled functions this request went through; "F": the largest
+           |ratio ** exp| of the matching, the only float operation of the modelled code that raises OverflowError;
+           "D" (div, floordiv): the exact matched divisor, which underflows to 0.0 in floats below about 1e-308)
 
 `M` is the error-propagation magnitude of the exact evaluation in the result's unit: every conversion step
 contributes the magnitude of its intermediate quantities (offsets included) and scales what was accumulated
@@ -182,10 +184,38 @@ def getQuantity (j : Json) (i : String) : Except String (Quantity × Rat) := do
     | _ => true
   pure (⟨es, cap, derived⟩, v)
 
-def answer (r : Except ErrKind (Quantity × Rat)) (m : Rat) (tags : List String) (extra : List (String × Json) := []) : Json :=
+/-- the largest `|ratio ** exp|` computed by the matching of one operand (the only float operation of the
+modelled code that raises `OverflowError`; reported as "F") -/
+def matchFactor (db : Db) (inD : Bool) : List (Sym × Sym) → List Entry → Rat → Rat → Rat
+  | _, [], _, f => f
+  | used, e :: es, v, f =>
+    match catQType db e.cat with
+    | .error _ => f
+    | .ok qt =>
+      match lookupU qt used with
+      | none => matchFactor db inD ((qt, e.unit) :: used) es v f
+      | some w =>
+        match convertMatchingExp db qt e.unit w e.exp v inD with
+        | .error _ => f
+        | .ok v1 =>
+          let plain := e.unit == w || (e.exp == 1 && (!inD ||
+            (match db.convert qt e.unit w 0 with | .ok c0 => c0 == 0 | .error _ => true)))
+          let f1 := if plain || v == 0 then f else maxR f (absR (v1 / v))
+          matchFactor db inD used es v1 f1
+
+def bothFactor (db : Db) (q1 q2 : Quantity) (v1 v2 : Rat) : Rat :=
+  match matchOne db (isDerivedDict q1.entries) [] q1.entries v1 with
+  | .error _ => matchFactor db (isDerivedDict q1.entries) [] q1.entries v1 0
+  | .ok (used, _, _) =>
+    maxR (matchFactor db (isDerivedDict q1.entries) [] q1.entries v1 0)
+      (matchFactor db (isDerivedDict q2.entries) used q2.entries v2 0)
+
+def answer (r : Except ErrKind (Quantity × Rat)) (m : Rat) (tags : List String) (extra : List (String × Json) := [])
+    (f : Rat := 0) : Json :=
   match r with
-  | .error e => Json.mkObj ([("err", .str e.name)] ++ brJ tags)
-  | .ok (q, v) => Json.mkObj ([("ok", quantityJ q), ("v", ratJ v), ("M", ratJ (maxR m (absR v)))] ++ brJ (shapeTag q :: tags) ++ extra)
+  | .error e => Json.mkObj ([("err", .str e.name), ("F", ratJ f)] ++ brJ tags)
+  | .ok (q, v) => Json.mkObj ([("ok", quantityJ q), ("v", ratJ v), ("M", ratJ (maxR m (absR v))), ("F", ratJ f)]
+      ++ brJ (shapeTag q :: tags) ++ extra)
 
 def handle (j : Json) : Except String Json := do
   let db := Gen.poscDb
@@ -195,7 +225,7 @@ def handle (j : Json) : Except String Json := do
   | "pow" =>
     let n ← getInt j "n"
     pure (answer (pow db q1 v1 n) (powMag db q1 v1 (n - 1).toNat q1 v1 (absR v1))
-      (if n ≤ 1 then ["pow:no-iteration"] else "pow:loop" :: newTags db .mul q1 q1 v1 v1))
+      (if n ≤ 1 then ["pow:no-iteration"] else "pow:loop" :: newTags db .mul q1 q1 v1 v1) [] (bothFactor db q1 q1 v1 v1))
   | _ =>
     let (q2, v2) ← getQuantity j "2"
     match op with
@@ -206,15 +236,17 @@ def handle (j : Json) : Except String Json := do
         else
           let (n1, n2) := matchedMags db q1.entries q2.entries v1 v2 (absR v1) (absR v2)
           n1 + n2
-      pure (answer (opSame db sop q1 q2 v1 v2) m (sameTags db q1 q2 v1 v2))
+      pure (answer (opSame db sop q1 q2 v1 v2) m (sameTags db q1 q2 v1 v2) [] (bothFactor db q1 q2 v1 v2))
     | "mul" => pure (answer (opNew db .mul q1 q2 v1 v2) (newMag db .mul q1 q2 v1 v2 (absR v1) (absR v2))
-        (newTags db .mul q1 q2 v1 v2))
-    | "div" => pure (answer (opNew db .div q1 q2 v1 v2) (newMag db .div q1 q2 v1 v2 (absR v1) (absR v2))
-        (newTags db .div q1 q2 v1 v2))
+        (newTags db .mul q1 q2 v1 v2) [] (bothFactor db q1 q2 v1 v2))
+    | "div" =>
+      let (_, w2) := matchedVals db q1.entries q2.entries v1 v2
+      pure (answer (opNew db .div q1 q2 v1 v2) (newMag db .div q1 q2 v1 v2 (absR v1) (absR v2))
+        (newTags db .div q1 q2 v1 v2) [("D", ratJ (absR w2))] (bothFactor db q1 q2 v1 v2))
     | "floordiv" =>
       let (w1, w2) := matchedVals db q1.entries q2.entries v1 v2
       pure (answer (opNew db .floordiv q1 q2 v1 v2) (newMag db .div q1 q2 v1 v2 (absR v1) (absR v2))
-        (newTags db .floordiv q1 q2 v1 v2) [("quot", ratJ (w1 / w2))])
+        (newTags db .floordiv q1 q2 v1 v2) [("quot", ratJ (w1 / w2)), ("D", ratJ (absR w2))] (bothFactor db q1 q2 v1 v2))
     | _ => throw s!"unknown op {op}"
 
 def step (j : Json) : Json :=
